@@ -17,7 +17,10 @@ variable {K : Type} [Field K] [LinearOrder K] [IsStrictOrderedRing K]
 /-! ### signs and parity -/
 
 theorem tanSign_pm (s : Seg K) (t : K) : tanSign s t = 1 ∨ tanSign s t = -1 := by
-  unfold tanSign; split <;> simp
+  unfold tanSign
+  by_cases h : (if dY s t = 0 then travelY s t else dY s t) < 0
+  · rw [if_pos h]; exact Or.inr rfl
+  · rw [if_neg h]; exact Or.inl rfl
 
 /-- a sum of ±1's has the parity of the number of terms -/
 theorem sum_pm_parity (l : List Int) (h : ∀ x ∈ l, x = 1 ∨ x = -1) : l.sum.natAbs % 2 = l.length % 2 := by
@@ -156,4 +159,14 @@ theorem overlapping_counterexample :
 
 end witnesses
 
+end C11
+
+/-! F22 (fixed): at a horizontal inflection the derivative's y component vanishes exactly; the crossing direction is then read
+    off the chord between the points 1e-3 before and after.  The descending cubic with control ordinates 140, 14, 140, 14
+    at t = 1/2 (y′ = 0, y strictly decreasing) counts −1; the pinned sign rule (`copysign(1, +0.0)`) said +1. -/
+namespace C11
+open Winding
+example : dY (Seg.cubic (⟨46, 140⟩ : Pt ℚ) ⟨31, 14⟩ ⟨61, 140⟩ ⟨46, 14⟩) (1 / 2) = 0 := by decide +kernel
+example : tanSign (Seg.cubic (⟨46, 140⟩ : Pt ℚ) ⟨31, 14⟩ ⟨61, 140⟩ ⟨46, 14⟩) (1 / 2) = -1 := by decide +kernel
+example : tanSign (Seg.cubic (⟨46, 14⟩ : Pt ℚ) ⟨61, 140⟩ ⟨31, 14⟩ ⟨46, 140⟩) (1 / 2) = 1 := by decide +kernel
 end C11
